@@ -402,7 +402,9 @@ func c11Respond(w *world, seed uint64, opi int, op opSpec, V *baseNode, vp *prot
 		ip := c11Addr(class, 200+i)
 		port := 3000 + i
 		if kind == "low-port" {
-			port = 1 + rs.intn(1024)
+			port = []int{1024, 1024, 1023, 1, 1 + rs.intn(1024)}[rs.intn(5)] // the limit itself counts as low
+		} else if rs.chance(15) {
+			port = 1025 // the first port that is allowed
 		}
 		if kind == "unrelayable" {
 			// pick an address class the responder may not relay, if there is one
